@@ -16,6 +16,7 @@ import (
 )
 
 var graceS = 2
+var phase1TimeoutMs = 3000
 
 // oblSlots bounds the number of obligations whose scripts are materialised at once (memory).
 var oblSlots = make(chan struct{}, 8)
@@ -120,60 +121,101 @@ func (w *World) Discharge(fc *FnCtx, header string, scratch string, timeoutS int
 		return nil
 	}
 	base := filepath.Join(scratch, sanitizeFile(fc.key))
-	// phase 1: incremental
-	var sb strings.Builder
-	sb.WriteString(z3Opts)
-	fmt.Fprintf(&sb, "(set-option :timeout %d)\n", 3000)
-	sb.WriteString(header)
-	li := 0
-	for _, o := range todo {
-		for ; li < o.LogLen; li++ {
-			sb.WriteString(fc.log[li])
-			sb.WriteString("\n")
-		}
-		sb.WriteString("(push)\n(assert (not " + o.Goal + "))\n(check-sat)\n(pop)\n")
-	}
-	f1 := base + ".inc.smt2"
-	if err := os.WriteFile(f1, []byte(sb.String()), 0o644); err != nil {
-		return err
-	}
-	jobs <- struct{}{}
-	t0 := time.Now()
-	ctx := context.Background()
-	c, cancel := context.WithTimeout(ctx, time.Duration(4*len(todo)+30)*time.Second)
-	cmd := exec.CommandContext(c, "z3-new", f1)
-	var out bytes.Buffer
-	cmd.Stdout = &out
-	cmd.Stderr = &out
-	_ = cmd.Run()
-	cancel()
-	<-jobs
-	dt := time.Since(t0).Seconds()
-	lines := strings.Split(strings.TrimSpace(out.String()), "\n")
-	var answers []string
-	for _, l := range lines {
-		l = strings.TrimSpace(l)
-		if l == "unsat" || l == "sat" || l == "unknown" || l == "timeout" {
-			answers = append(answers, l)
-		} else if strings.HasPrefix(l, "(error") {
-			return fmt.Errorf("solver error on %s: %s (script %s)", fc.key, l, f1)
+	// phase 1: incremental sessions (the obligation list is cut into chunks that run in parallel; each chunk replays
+	// the log prefix it needs)
+	nchunks := 1
+	if len(todo) > 40 {
+		nchunks = (len(todo) + 39) / 40
+		if nchunks > 12 {
+			nchunks = 12
 		}
 	}
-	var rest []*Obligation
-	for i, o := range todo {
-		o.SMTSize = len(header)
-		if i < len(answers) && answers[i] == "unsat" {
-			o.Status = "unsat"
-			o.Solver = "z3-new(inc)"
-			o.TimeS = dt / float64(len(todo))
-		} else {
-			if i < len(answers) {
-				o.Status = answers[i]
-			} else {
-				o.Status = "unknown"
+	per := (len(todo) + nchunks - 1) / nchunks
+	type chunkRes struct {
+		answers []string
+		err     error
+		dt      float64
+	}
+	results := make([]chunkRes, nchunks)
+	var cwg sync.WaitGroup
+	for c := 0; c < nchunks; c++ {
+		lo, hi := c*per, (c+1)*per
+		if hi > len(todo) {
+			hi = len(todo)
+		}
+		if lo >= hi {
+			continue
+		}
+		c, lo, hi := c, lo, hi
+		cwg.Add(1)
+		go func() {
+			defer cwg.Done()
+			jobs <- struct{}{}
+			defer func() { <-jobs }()
+			var sb strings.Builder
+			sb.WriteString(z3Opts)
+			fmt.Fprintf(&sb, "(set-option :timeout %d)\n", phase1TimeoutMs)
+			sb.WriteString(header)
+			li := 0
+			for _, o := range todo[lo:hi] {
+				for ; li < o.LogLen; li++ {
+					sb.WriteString(fc.log[li])
+					sb.WriteString("\n")
+				}
+				sb.WriteString("(push)\n(assert (not " + o.Goal + "))\n(check-sat)\n(pop)\n")
 			}
-			if o.Kind != "canary" {
-				rest = append(rest, o)
+			f1 := fmt.Sprintf("%s.inc%d.smt2", base, c)
+			if err := os.WriteFile(f1, []byte(sb.String()), 0o644); err != nil {
+				results[c].err = err
+				return
+			}
+			t0 := time.Now()
+			cx, cancel := context.WithTimeout(context.Background(), time.Duration((phase1TimeoutMs/1000+1)*(hi-lo)+30)*time.Second)
+			cmd := exec.CommandContext(cx, "z3-new", f1)
+			var out bytes.Buffer
+			cmd.Stdout = &out
+			cmd.Stderr = &out
+			_ = cmd.Run()
+			cancel()
+			results[c].dt = time.Since(t0).Seconds()
+			for _, l := range strings.Split(strings.TrimSpace(out.String()), "\n") {
+				l = strings.TrimSpace(l)
+				if l == "unsat" || l == "sat" || l == "unknown" || l == "timeout" {
+					results[c].answers = append(results[c].answers, l)
+				} else if strings.HasPrefix(l, "(error") {
+					results[c].err = fmt.Errorf("solver error on %s: %s (script %s)", fc.key, l, f1)
+					return
+				}
+			}
+		}()
+	}
+	cwg.Wait()
+	var rest []*Obligation
+	for c := 0; c < nchunks; c++ {
+		if results[c].err != nil {
+			return results[c].err
+		}
+		lo, hi := c*per, (c+1)*per
+		if hi > len(todo) {
+			hi = len(todo)
+		}
+		for i := lo; i < hi; i++ {
+			o := todo[i]
+			o.SMTSize = len(header)
+			ans := results[c].answers
+			if i-lo < len(ans) && ans[i-lo] == "unsat" {
+				o.Status = "unsat"
+				o.Solver = "z3-new(inc)"
+				o.TimeS = results[c].dt / float64(hi-lo)
+			} else {
+				if i-lo < len(ans) {
+					o.Status = ans[i-lo]
+				} else {
+					o.Status = "unknown"
+				}
+				if o.Kind != "canary" {
+					rest = append(rest, o)
+				}
 			}
 		}
 	}
